@@ -1196,7 +1196,7 @@ impl DcpsDomainParticipant {
                                         .status_condition
                                         .add_communication_state(StatusKind::PublicationMatched);
                                 } else {
-                                    data_writer
+                                    let status_changed = data_writer
                                         .incompatible_subscriptions
                                         .add_incompatible_subscription(
                                             InstanceHandle::new(
@@ -1208,55 +1208,60 @@ impl DcpsDomainParticipant {
                                             incompatible_qos_policy_list,
                                         );
 
-                                    if data_writer
-                                        .listener_mask
-                                        .is_enabled(&StatusKind::OfferedIncompatibleQos)
-                                    {
-                                        let status = data_writer
-                                            .incompatible_subscriptions
-                                            .get_offered_incompatible_qos_status();
+                                    // A reader that is still incompatible is found again on every pass: only a change is notified
+                                    if status_changed {
+                                        if data_writer
+                                            .listener_mask
+                                            .is_enabled(&StatusKind::OfferedIncompatibleQos)
+                                        {
+                                            let status = data_writer
+                                                .incompatible_subscriptions
+                                                .get_offered_incompatible_qos_status();
 
-                                        if let Some(l) = &data_writer.listener_sender {
-                                            l.send(ListenerMail::OfferedIncompatibleQos {
-                                                the_writer,
-                                                status,
-                                            })
-                                            .ok();
+                                            if let Some(l) = &data_writer.listener_sender {
+                                                l.send(ListenerMail::OfferedIncompatibleQos {
+                                                    the_writer,
+                                                    status,
+                                                })
+                                                .ok();
+                                            }
+                                        } else if publisher
+                                            .listener_mask
+                                            .is_enabled(&StatusKind::OfferedIncompatibleQos)
+                                        {
+                                            let status = data_writer
+                                                .incompatible_subscriptions
+                                                .get_offered_incompatible_qos_status();
+                                            if let Some(l) = &publisher.listener_sender {
+                                                l.send(ListenerMail::OfferedIncompatibleQos {
+                                                    the_writer,
+                                                    status,
+                                                })
+                                                .ok();
+                                            }
+                                        } else if self
+                                            .domain_participant
+                                            .listener_mask
+                                            .is_enabled(&StatusKind::OfferedIncompatibleQos)
+                                        {
+                                            let status = data_writer
+                                                .incompatible_subscriptions
+                                                .get_offered_incompatible_qos_status();
+                                            if let Some(l) =
+                                                &self.domain_participant.listener_sender
+                                            {
+                                                l.send(ListenerMail::OfferedIncompatibleQos {
+                                                    the_writer,
+                                                    status,
+                                                })
+                                                .ok();
+                                            }
                                         }
-                                    } else if publisher
-                                        .listener_mask
-                                        .is_enabled(&StatusKind::OfferedIncompatibleQos)
-                                    {
-                                        let status = data_writer
-                                            .incompatible_subscriptions
-                                            .get_offered_incompatible_qos_status();
-                                        if let Some(l) = &publisher.listener_sender {
-                                            l.send(ListenerMail::OfferedIncompatibleQos {
-                                                the_writer,
-                                                status,
-                                            })
-                                            .ok();
-                                        }
-                                    } else if self
-                                        .domain_participant
-                                        .listener_mask
-                                        .is_enabled(&StatusKind::OfferedIncompatibleQos)
-                                    {
-                                        let status = data_writer
-                                            .incompatible_subscriptions
-                                            .get_offered_incompatible_qos_status();
-                                        if let Some(l) = &self.domain_participant.listener_sender {
-                                            l.send(ListenerMail::OfferedIncompatibleQos {
-                                                the_writer,
-                                                status,
-                                            })
-                                            .ok();
-                                        }
+
+                                        data_writer.status_condition.add_communication_state(
+                                            StatusKind::OfferedIncompatibleQos,
+                                        );
                                     }
-
-                                    data_writer.status_condition.add_communication_state(
-                                        StatusKind::OfferedIncompatibleQos,
-                                    );
                                 }
                             } else {
                                 writer_associated_topic
@@ -1747,57 +1752,66 @@ impl DcpsDomainParticipant {
                                         .status_condition
                                         .add_communication_state(StatusKind::SubscriptionMatched);
                                 } else {
-                                    data_reader.add_requested_incompatible_qos(
-                                        InstanceHandle::new(
-                                            discovered_writer_data.dds_publication_data.key().value,
-                                        ),
-                                        incompatible_qos_policy_list,
-                                    );
+                                    let status_changed = data_reader
+                                        .add_requested_incompatible_qos(
+                                            InstanceHandle::new(
+                                                discovered_writer_data
+                                                    .dds_publication_data
+                                                    .key()
+                                                    .value,
+                                            ),
+                                            incompatible_qos_policy_list,
+                                        );
 
-                                    if data_reader
-                                        .listener_mask
-                                        .is_enabled(&StatusKind::RequestedIncompatibleQos)
-                                    {
-                                        let status =
-                                            data_reader.get_requested_incompatible_qos_status();
-                                        if let Some(l) = &data_reader.listener_sender {
-                                            l.send(ListenerMail::RequestedIncompatibleQos {
-                                                the_reader,
-                                                status,
-                                            })
-                                            .ok();
+                                    // A writer that is still incompatible is found again on every pass: only a change is notified
+                                    if status_changed {
+                                        if data_reader
+                                            .listener_mask
+                                            .is_enabled(&StatusKind::RequestedIncompatibleQos)
+                                        {
+                                            let status =
+                                                data_reader.get_requested_incompatible_qos_status();
+                                            if let Some(l) = &data_reader.listener_sender {
+                                                l.send(ListenerMail::RequestedIncompatibleQos {
+                                                    the_reader,
+                                                    status,
+                                                })
+                                                .ok();
+                                            }
+                                        } else if subscriber_listener_mask
+                                            .is_enabled(&StatusKind::RequestedIncompatibleQos)
+                                        {
+                                            let status =
+                                                data_reader.get_requested_incompatible_qos_status();
+                                            if let Some(l) = &subscriber_listener_sender {
+                                                l.send(ListenerMail::RequestedIncompatibleQos {
+                                                    the_reader,
+                                                    status,
+                                                })
+                                                .ok();
+                                            }
+                                        } else if self
+                                            .domain_participant
+                                            .listener_mask
+                                            .is_enabled(&StatusKind::RequestedIncompatibleQos)
+                                        {
+                                            let status =
+                                                data_reader.get_requested_incompatible_qos_status();
+                                            if let Some(l) =
+                                                &self.domain_participant.listener_sender
+                                            {
+                                                l.send(ListenerMail::RequestedIncompatibleQos {
+                                                    the_reader,
+                                                    status,
+                                                })
+                                                .ok();
+                                            }
                                         }
-                                    } else if subscriber_listener_mask
-                                        .is_enabled(&StatusKind::RequestedIncompatibleQos)
-                                    {
-                                        let status =
-                                            data_reader.get_requested_incompatible_qos_status();
-                                        if let Some(l) = &subscriber_listener_sender {
-                                            l.send(ListenerMail::RequestedIncompatibleQos {
-                                                the_reader,
-                                                status,
-                                            })
-                                            .ok();
-                                        }
-                                    } else if self
-                                        .domain_participant
-                                        .listener_mask
-                                        .is_enabled(&StatusKind::RequestedIncompatibleQos)
-                                    {
-                                        let status =
-                                            data_reader.get_requested_incompatible_qos_status();
-                                        if let Some(l) = &self.domain_participant.listener_sender {
-                                            l.send(ListenerMail::RequestedIncompatibleQos {
-                                                the_reader,
-                                                status,
-                                            })
-                                            .ok();
-                                        }
+
+                                        data_reader.status_condition.add_communication_state(
+                                            StatusKind::RequestedIncompatibleQos,
+                                        );
                                     }
-
-                                    data_reader.status_condition.add_communication_state(
-                                        StatusKind::RequestedIncompatibleQos,
-                                    );
                                 }
                             } else {
                                 reader_associated_topic
@@ -3479,12 +3493,14 @@ impl PublicationMatchedStatus {
 }
 
 impl IncompatibleSubscriptions {
+    /// Returns true when the subscription was not known to be incompatible yet, i.e. when the status changed
     fn add_incompatible_subscription(
         &mut self,
         handle: InstanceHandle,
         incompatible_qos_policy_list: Vec<QosPolicyId>,
-    ) {
-        if !self.incompatible_subscription_list.contains(&handle) {
+    ) -> bool {
+        let is_new = !self.incompatible_subscription_list.contains(&handle);
+        if is_new {
             self.offered_incompatible_qos_status.total_count += 1;
             self.offered_incompatible_qos_status.total_count_change += 1;
             self.offered_incompatible_qos_status.last_policy_id = incompatible_qos_policy_list[0];
@@ -3508,6 +3524,7 @@ impl IncompatibleSubscriptions {
                 }
             }
         }
+        is_new
     }
 
     fn get_offered_incompatible_qos_status(&mut self) -> OfferedIncompatibleQosStatus {
